@@ -156,7 +156,16 @@ func Check(prop string, o Options) int {
 		return 3
 	}
 	names := p.HarnessNames(prop)
+	staleFiles := 0
+	for f, m := range p.Stale {
+		fmt.Printf("STALE property=%s harness file %s does not compile against this tree (%s); its harnesses are skipped\n", prop, f, m)
+		staleFiles++
+	}
 	if len(names) == 0 {
+		if staleFiles > 0 {
+			fmt.Printf("INCONCLUSIVE property=%s every harness of the property is stale\n", prop)
+			return 3
+		}
 		fmt.Printf("ENGINE-ERROR property=%s has no harness\n", prop)
 		return 3
 	}
@@ -384,6 +393,10 @@ func Check(prop string, o Options) int {
 	ev.Violations = nviol
 	if err := writeJSON(filepath.Join(outDir, "evidence", prop+".json"), ev); err != nil {
 		engineErr("writing evidence: %v", err)
+	}
+	if exit == 0 && staleFiles > 0 {
+		fmt.Printf("INCONCLUSIVE property=%s some harness files are stale; the remaining harnesses found nothing\n", prop)
+		return 3
 	}
 	if exit == 4 {
 		// incomplete exploration is not success and not a violation
